@@ -43,7 +43,7 @@ Print Assumptions C09_error_writes_nothing.
    encodable (address family, MAC / octet-array length, nil) are inside the hypotheses. The oracle
    is a function of the structured observation; show_hist / parse_hobs only print / read it. *)
 Theorem C09_oracle_on_model : forall c,
-  c09_wf c (fst (hist_model cur c)) = true -> C09_holds_on c (hist_model cur c) = true.
+  c09_wf_h c (fst (hist_model cur c)) = true -> C09_holds_on_h c (hist_model cur c) = true.
 Proof. exact c09_oracle_on_model. Qed.
 Print Assumptions C09_oracle_on_model.
 
@@ -60,10 +60,14 @@ Theorem C09_witnesses_repaired :
   satisfies cur case_f7 = true /\ satisfies cur case_f12 = true.
 Proof. exact repaired_all. Qed.
 Theorem C09_each_repair_needed :
-  refutes (mkFixes false true true true) case_f6 = true /\
-  refutes (mkFixes true false true true) case_f7 = true /\
-  refutes (mkFixes true true false true) case_f12 = true.
+  refutes (mkFixes false true true true true) case_f6 = true /\
+  refutes (mkFixes true false true true true) case_f7 = true /\
+  refutes (mkFixes true true false true true) case_f12 = true.
 Proof. exact each_repair_needed. Qed.
+(* a value that cannot be encoded, in a data record of length 0, was dropped silently *)
+Theorem C09_refuted_zero_length_record_orig :
+  refutes (mkFixes true true true true false) case_zero_len = true /\ satisfies cur case_zero_len = true.
+Proof. split; [exact refuted_zero_length_record|exact repaired_zero_length_record]. Qed.
 Print Assumptions C09_refuted_F12_orig.
 
 (* non-vacuity: a fresh process satisfies the hypotheses; a mixed history without panics *)
@@ -78,7 +82,7 @@ Definition c09_case : string :=
 Example C09_oracle_nonvacuous :
   match parse_hcase (tokens c09_case) with
   | Some c => let m := hist_model cur c in
-              c09_wf c (fst m) && C09_holds_on c m &&
+              c09_wf_h c (fst m) && C09_holds_on_h c m &&
               list_eqb String.eqb (map (fun o => show_sres (so_res o)) (fst m))
                        ["r=ok:32"; "r=ok:26"; "r=err:encode"; "r=err:notemplate"]%string
   | None => false
